@@ -483,6 +483,15 @@ func checkCase(c *Case) (err error) {
 				}
 			}
 		}
+		// outside a registered route the record says which kind of handler panicked, using the names of the exported scope
+		// constants: whatever it says, it cannot be the name of a handler kind that did not run
+		if own := map[string]string{"noroute": "NoRouteHandler", "nomethod": "NoMethodHandler", "options": "OptionsHandler"}[c.Kind]; own != "" {
+			for _, other := range []string{"NoRouteHandler", "NoMethodHandler", "OptionsHandler", "RedirectHandler"} {
+				if other != own && strings.Contains(text, "ATTR route="+other) {
+					return fmt.Errorf("%sthe panic was raised in the %s but the diagnostic record names %s: %s", desc, own, other, text)
+				}
+			}
+		}
 		if strings.Contains(text, "stale-") {
 			return fmt.Errorf("%sthe diagnostic record carries a parameter of an earlier request (stale-...): %s", desc, text)
 		}
